@@ -493,8 +493,22 @@ def insitu(spec, rec, log, rng):
             rec.violation("insitu:bypass", desc, f"{len(prov)} provider solves but {len(solves)} contracted residual calls")
         # what calculate_residual HANDS ON must itself carry the certificate for the matrix and data it was given
         # (a retry / fallback inside the provider may not return clps of a different problem)
-        pstep = max(1, len(prov) // 200)
-        for pk, A, y, x, r, _ in prov[::pstep]:
+        # a provider result that IS the contracted solver's result for the same matrix and data has been judged at the
+        # solver (with the very array objects, which the F13 bug model needs); only a result that differs - a retry, a
+        # fallback, a rescaling inside the provider - is judged here
+        last_inner, differing = None, []
+        for ent in log:
+            if not ent[0].startswith("provider:"):
+                last_inner = ent
+                continue
+            li = last_inner
+            same = (li is not None and li[1].shape == ent[1].shape and np.array_equal(li[1], ent[1]) and np.array_equal(li[2], ent[2])
+                    and np.array_equal(np.asarray(li[3]), ent[3], equal_nan=True) and np.array_equal(np.asarray(li[4]), ent[4], equal_nan=True))
+            if same:
+                rec.count("provider_results_identical_to_solver_results")
+            else:
+                differing.append(ent)
+        for pk, A, y, x, r, _ in differing[:200]:
             if A.shape[1] == 0 or not (np.isfinite(A).all() and np.isfinite(y).all()):
                 continue
             sv = np.linalg.svd(A, compute_uv=False)
